@@ -144,6 +144,24 @@ def extend(repo, T, ex):
         raise ex.ExtractError("setSock: WebSocket(... enable_multithread=...) not found")
     T["appSockMultithread"] = mt
 
+    # ---- setSock(): a reconnect that comes due after the application has closed is not made:
+    #      `if reconnecting and not self.keep_running: teardown(); return` as the FIRST statement
+    def _reconnect_guard(st):
+        if not isinstance(st, ast.If) or st.orelse:
+            return False
+        t = st.test
+        if not (isinstance(t, ast.BoolOp) and isinstance(t.op, ast.And) and len(t.values) == 2):
+            return False
+        a, b = t.values
+        ok_a = isinstance(a, ast.Name) and a.id == "reconnecting"
+        ok_b = isinstance(b, ast.UnaryOp) and isinstance(b.op, ast.Not) and _is_self_attr(b.operand, "keep_running")
+        body_ok = (len(st.body) == 2 and isinstance(st.body[0], ast.Expr) and isinstance(st.body[0].value, ast.Call)
+                   and getattr(st.body[0].value.func, "id", "") == "teardown" and not st.body[0].value.args
+                   and isinstance(st.body[1], ast.Return) and st.body[1].value is None)
+        return ok_a and ok_b and body_ok
+    ss_stmts = [st for st in ss.body if not (isinstance(st, ast.Expr) and isinstance(st.value, ast.Constant))]
+    T["appReconnectGuard"] = bool(ss_stmts) and _reconnect_guard(ss_stmts[0])
+
     # ---- handleDisconnect(): an exception met while the application is closing (keep_running already False) is not an error
     #      of the run: `if not self.keep_running and not isinstance(e, (KeyboardInterrupt, SystemExit)): teardown(); return`
     #      as the FIRST statement (before has_errored is set and before anything is reported)
